@@ -626,6 +626,27 @@ func (g *Gen) relatedPath(def string) string {
 	return f
 }
 
+// idRewrite: the updater tries to change _id (or something below it)
+func idRewrite(u []interface{}) bool {
+	if u[0] == "idform" {
+		return true
+	}
+	if len(u) > 1 {
+		if p, ok := u[1].([]int); ok {
+			return strings.HasPrefix(string(intsToBytes(p)), "_id")
+		}
+	}
+	return false
+}
+
+func intsToBytes(p []int) []byte {
+	b := make([]byte, len(p))
+	for i, x := range p {
+		b[i] = byte(x)
+	}
+	return b
+}
+
 func (g *Gen) updater(bulk bool) []interface{} {
 	k := g.r.Intn(100)
 	if g.P.Name == "ids" && g.chance(0.2) {
@@ -649,17 +670,16 @@ func (g *Gen) updater(bulk bool) []interface{} {
 		return []interface{}{"nil"}
 	case g.chance(g.P.Invalid):
 		// an update producing an invalid document: rewrites _id / breaks _expiresAt
-		if g.chance(0.15) { // a path *through* _id turns it into a sub-document
+		switch g.r.Intn(4) {
+		case 0: // a path *through* _id turns it into a sub-document
 			kind := "set"
 			if g.chance(0.5) {
 				kind = "setInPlace"
 			}
 			return []interface{}{kind, B("_id.rev"), g.smallNum()}
-		}
-		if g.chance(0.35) { // the same UUID spelled differently is a different _id
+		case 1: // the same UUID spelled differently is a different _id
 			return []interface{}{"idform", g.pick([]string{"upper", "braces", "urn", "bare", "bare"})}
-		}
-		if g.chance(0.5) {
+		case 2:
 			return []interface{}{"set", B("_id"), AStr(g.pick(g.ids))}
 		}
 		return []interface{}{"setInPlace", B("_id"), AStr(g.pick(g.ids))}
@@ -803,11 +823,21 @@ func (g *Gen) event(op string) E {
 		}
 		return E{"op": op, "c": c, "id": B(id), "docs": []interface{}{g.doc(AStr(did))}}
 	case "UpdateById":
-		return E{"op": op, "c": c, "id": B(g.someId(c)), "upd": g.updater(false)}
+		upd := g.updater(false)
+		id := g.someId(c)
+		if live := g.liveIds(c); idRewrite(upd) && len(live) > 0 {
+			id = g.pick(live) // an attempt to rewrite _id is aimed at a document that exists
+		}
+		return E{"op": op, "c": c, "id": B(id), "upd": upd}
 	case "Update":
 		return E{"op": op, "c": c, "q": g.query(true), "upd": g.updateMap()}
 	case "UpdateFunc":
-		return E{"op": op, "c": c, "q": g.query(true), "upd": g.updater(true)}
+		upd := g.updater(true)
+		q := g.query(true)
+		if idRewrite(upd) && g.chance(0.7) {
+			q = []interface{}{} // ... at every document
+		}
+		return E{"op": op, "c": c, "q": q, "upd": upd}
 	case "Delete":
 		return E{"op": op, "c": c, "q": g.query(true)}
 	case "DeleteById":
